@@ -4,14 +4,116 @@
 
 package allocator
 
+// Buggy: an IPv4 address ending in .0 or .255.
 //@ pred Buggy(ip net.IP) := net.is4(ip) && (net.v4byte(ip, 3) == 0 || net.v4byte(ip, 3) == 255)
 
 //@ func ipConfusesBuggyFirmwares
 //@   pure
 //@   ensures result == Buggy(ip)
+//@   modifies nothing
 
+// KeyCompat: two allocation keys allow sharing: same non-empty sharing key and same backend key.
 //@ pred KeyCompat(e key, n key) := e.sharing != "" && n.sharing != "" && e.sharing == n.sharing && e.backend == n.backend
 
 //@ func sharingOK
 //@   requires existing != nil && new != nil
 //@   ensures (result == nil) == KeyCompat(*existing, *new)
+//@   modifies fresh []interface{}
+
+// Sharable: svc may use address ip with these ports and this key: the address is unused, or the keys
+// are compatible (or svc is the only tenant, in which case it may re-key), and no requested port is
+// owned by another service.
+//@ pred SoleTenant(a *Allocator, svc string, ip string) := forall o string :: o in a.servicesOnIP[ip] ==> o == svc
+//@ pred PortsFree(a *Allocator, svc string, ip string, ports []Port) :=
+//@     forall i int :: 0 <= i && i < len(ports) ==> (!(ports[i] in a.portsInUse[ip]) || a.portsInUse[ip][ports[i]] == svc)
+//@ pred Sharable(a *Allocator, svc string, ip string, ports []Port, sk *key) :=
+//@     a.sharingKeyForIP[ip] == nil ||
+//@     ((KeyCompat(*a.sharingKeyForIP[ip], *sk) || SoleTenant(a, svc, ip)) && PortsFree(a, svc, ip, ports))
+
+//@ func (*Allocator).checkSharing
+//@   requires a != nil && sk != nil
+//@   ensures (result == nil) == old(Sharable(a, svc, ip, ports, sk))
+//@   modifies fresh []string, fresh []interface{}
+//@   loop 1 invariant otherSvcs == nil || fresh(otherSvcs)
+//@   loop 1 invariant forall o string :: o in otherSvcs ==> o in visited && o != svc
+//@   loop 1 invariant forall o string :: o in visited && o != svc ==> o in otherSvcs
+//@   loop 1 invariant forall o string :: o in visited ==> o in a.servicesOnIP[ip]
+//@   loop 2 invariant forall j int :: 0 <= j && j < iter ==> (!(ports[j] in a.portsInUse[ip]) || a.portsInUse[ip][ports[j]] == svc)
+
+// ---- the allocator's representation invariant (C01, C11) ----
+// Every secondary map is a function of `allocated`. The G-versions carry a pending pseudo-entry
+// (on, svc, al, i, j): service svc still counts as holding the addresses al.ips[i..], and for al.ips[i]
+// its ports al.ports[0..j) have already been released. Inv(a) is the G-version with the entry off.
+
+//@ pred HasIP(al *alloc, x string) := exists k int :: 0 <= k && k < len(al.ips) && net.ipstr(al.ips[k]) == x
+//@ pred HasPort(al *alloc, p Port) := exists m int :: 0 <= m && m < len(al.ports) && al.ports[m] == p
+//@ pred WFAlloc(al *alloc) := al != nil && len(al.ports) >= 1 && 1 <= len(al.ips) && len(al.ips) <= 2
+//@     && (forall m int, n int :: 0 <= m && m < n && n < len(al.ports) ==> al.ports[m] != al.ports[n])
+//@     && (len(al.ips) == 2 ==> net.ipstr(al.ips[0]) != net.ipstr(al.ips[1]))
+//@ pred PendingIP(al *alloc, i int, x string) := exists k int :: i <= k && k < len(al.ips) && net.ipstr(al.ips[k]) == x
+//@ pred ReleasedPort(al *alloc, i int, j int, x string, p Port) :=
+//@     0 <= i && i < len(al.ips) && net.ipstr(al.ips[i]) == x && (exists m int :: 0 <= m && m < j && m < len(al.ports) && al.ports[m] == p)
+
+//@ opaque pred HoldsG(a *Allocator, on bool, svc string, al *alloc, i int, s string, x string) :=
+//@     (a.allocated[s] != nil && HasIP(a.allocated[s], x)) || (on && s == svc && PendingIP(al, i, x))
+//@ fun AllocG(a *Allocator, on bool, svc string, al *alloc, s string) *alloc := ite(on && s == svc, al, a.allocated[s])
+//@ opaque pred OwnsPortG(a *Allocator, on bool, svc string, al *alloc, i int, j int, s string, x string, p Port) :=
+//@     HoldsG(a, on, svc, al, i, s, x) && HasPort(AllocG(a, on, svc, al, s), p) && !(on && s == svc && ReleasedPort(al, i, j, x, p))
+
+//@ pred InvMaps(a *Allocator) := a != nil && a.allocated != nil && a.sharingKeyForIP != nil && a.portsInUse != nil && a.servicesOnIP != nil
+//@     && a.poolIPsInUse != nil && a.poolIPV4InUse != nil && a.poolIPV6InUse != nil && a.poolToCounters != nil && a.pools != nil && a.pools.ByName != nil
+//@     && (forall x string :: x in a.portsInUse ==> a.portsInUse[x] != nil)
+//@     && (forall x string, y string :: x != y && x in a.portsInUse && y in a.portsInUse ==> a.portsInUse[x] != a.portsInUse[y])
+//@     && (forall x string :: x in a.servicesOnIP ==> a.servicesOnIP[x] != nil)
+//@     && (forall x string, y string :: x != y && x in a.servicesOnIP && y in a.servicesOnIP ==> a.servicesOnIP[x] != a.servicesOnIP[y])
+//@     && (forall n string :: n in a.pools.ByName ==> a.pools.ByName[n] != nil)
+
+//@ pred InvSvc(a *Allocator, on bool, svc string, al *alloc, i int) :=
+//@     forall x string, s string :: (s in a.servicesOnIP[x]) == HoldsG(a, on, svc, al, i, s, x)
+//@ pred InvPorts(a *Allocator, on bool, svc string, al *alloc, i int, j int) :=
+//@     (forall x string, s string, p Port :: OwnsPortG(a, on, svc, al, i, j, s, x, p) ==> (p in a.portsInUse[x]) && a.portsInUse[x][p] == s)
+//@     && (forall x string, p Port :: (p in a.portsInUse[x]) ==> OwnsPortG(a, on, svc, al, i, j, a.portsInUse[x][p], x, p))
+//@ pred InvKeys(a *Allocator, on bool, svc string, al *alloc, i int) :=
+//@     (forall x string :: (a.sharingKeyForIP[x] != nil) == (x in a.portsInUse))
+//@     && (forall x string :: (x in a.portsInUse) == (exists s string :: HoldsG(a, on, svc, al, i, s, x)))
+//@     && (forall x string, s string :: HoldsG(a, on, svc, al, i, s, x) ==> *a.sharingKeyForIP[x] == AllocG(a, on, svc, al, s).key)
+//@     && (forall x string, s1 string, s2 string :: s1 != s2 && HoldsG(a, on, svc, al, i, s1, x) && HoldsG(a, on, svc, al, i, s2, x) ==> AllocG(a, on, svc, al, s1).key.sharing != "")
+//@ pred InvAllocs(a *Allocator, on bool, al *alloc) :=
+//@     (forall s string :: a.allocated[s] != nil ==> WFAlloc(a.allocated[s]) && PoolMapsFor(a, a.allocated[s].pool))
+//@     && (on ==> WFAlloc(al) && PoolMapsFor(a, al.pool))
+//@ pred PoolMapsFor(a *Allocator, pool string) := a.poolIPsInUse[pool] != nil && a.poolIPV4InUse[pool] != nil && a.poolIPV6InUse[pool] != nil
+//@ pred InvG(a *Allocator, on bool, svc string, al *alloc, i int, j int) :=
+//@     InvMaps(a) && InvSvc(a, on, svc, al, i) && InvPorts(a, on, svc, al, i, j) && InvKeys(a, on, svc, al, i) && InvAllocs(a, on, al)
+//@ pred Inv(a *Allocator) := InvG(a, false, "", nil, 0, 0)
+
+//@ func deleteStatsFor
+//@   modifies nothing
+//@ func field:go.universe.tf/metallb/internal/allocator.Allocator.countersChangedCallback
+//@   trusted
+// PoolCIDRsOK: data invariant of a parsed pool: every CIDR is present and has a canonical 32- or 128-bit mask.
+//@ pred PoolCIDRsOK(p *config.Pool) := p != nil && (forall i int :: 0 <= i && i < len(p.CIDR) ==>
+//@     p.CIDR[i] != nil && (net.maskBits(p.CIDR[i].Mask) == 32 || net.maskBits(p.CIDR[i].Mask) == 128))
+//@ func saturatingAdd
+//@   check overflow
+//@   requires a >= 0 && b >= 0
+//@   ensures result == ite(a + b > 9223372036854775807, 9223372036854775807, a + b)
+//@   modifies nothing
+//@ func poolCount
+//@   check overflow
+//@   requires PoolCIDRsOK(p)
+//@   ensures [nonneg] result0 >= 0 && result1 >= 0 && result2 >= 0
+//@   loop 1 invariant total >= 0 && ipv4 >= 0 && ipv6 >= 0
+//@   modifies fresh *ipaddr.Prefix, fresh *ipaddr.Cursor, fresh *ipaddr.Position, fresh []ipaddr.Prefix, gint("cursor.pos")
+//@ func (*Allocator).updatePoolStats
+//@   requires a != nil && p != nil && a.poolToCounters != nil
+//@   modifies map(a.poolToCounters), fresh *ipaddr.Prefix, fresh *ipaddr.Cursor, fresh *ipaddr.Position, fresh []ipaddr.Prefix, gint("cursor.pos"), fresh []string
+
+//@ func (*Allocator).Unassign
+//@   requires Inv(a) && a.countersChangedCallback != nil
+//@   ensures Inv(a)
+//@   ensures a.allocated[svc] == nil
+//@   ensures forall s string :: s != svc ==> a.allocated[s] == old(a.allocated[s])
+//@   loop 1 invariant al != nil && al == old(a.allocated[svc]) && a.allocated[svc] == nil && InvG(a, true, svc, al, iter, 0)
+//@   loop 1 invariant forall s string :: s != svc ==> a.allocated[s] == old(a.allocated[s])
+//@   loop 2 invariant al != nil && a.allocated[svc] == nil && 0 <= idx(1) && idx(1) < len(al.ips) && InvG(a, true, svc, al, idx(1), iter)
+//@   loop 2 invariant forall s string :: s != svc ==> a.allocated[s] == old(a.allocated[s])
